@@ -36,7 +36,17 @@
 class OPN2
 {
     friend class OPNMIDIplay;
+#ifdef OPNMIDI_VERIF
+    friend struct OpnVerifAccess;
+#endif
 public:
+#ifdef OPNMIDI_VERIF
+    //! Verification tap: observes every register/pan write (kind 0 = register, 1 = soft pan)
+    void (*m_verifTap)(void *ud, int kind, size_t chip, unsigned port, unsigned reg, unsigned val);
+    void *m_verifTapData;
+    //! Verification tap: observes the (channel, tone, hertz*coef) handed to the octave search of noteOn
+    void (*m_verifNoteTap)(void *ud, size_t c, double tone, double hertz);
+#endif
     enum { PercussionTag = 1 << 15 };
 
     //! Total number of chip channels between all running emulators
